@@ -372,7 +372,7 @@ static void run_config(const Config & c, uint64_t seed, long n_iid, int n_grid)
       DeepSteerStats ds2 = deep_steer(tape, seed, stream + (1ULL << 22) + 64, c.thr, pass2, 4, [&](const std::string & steer, size_t & d) {
         one(steer);
         d = last_draws;
-        return last_sig * 1000003ull + (uint64_t)last_draws;
+        return last_sig * 1000003ull + std::min<uint64_t>((uint64_t)last_draws, 400); // capped, see the first harness
       });
       ds.events += ds2.events;
       ds.nodes_expanded += ds2.nodes_expanded;
